@@ -1,0 +1,14 @@
+// Copyright 2026 The Go Authors. All rights reserved.
+// Use of this source code is governed by a BSD-style
+// license that can be found in the LICENSE file.
+
+//go:build !verif
+
+package websocket
+
+import "sync"
+
+// wioMutex is the type of Conn.wio, the lock held while writing a frame. It is a
+// plain sync.Mutex; the verif build tag (used only by an external simulation
+// harness) substitutes a lock whose waiters block on a channel, see wio_verif.go.
+type wioMutex = sync.Mutex
